@@ -45,7 +45,10 @@ Inductive op :=
 | OFindS (v : nat) (l : list Z) | OFindSFrom (v : nat) (l : list Z) (start : nat)
 | OFindOneOf (v : nat) (l : list Z) | OFindOneOfFrom (v : nat) (l : list Z) (start : nat)
 | OFindLastS (v : nat) (l : list Z) | OFindLastOf (v : nat) (l : list Z)
-| OStartsWith (v u : nat) | OEndsWith (v u : nat) | OLen (v : nat).
+| OStartsWith (v u : nat) | OEndsWith (v u : nat) | OLen (v : nat)
+(* arguments that point into the String's own text: p = the C-string view of variable v itself *)
+| OAppendOwn (v off len : nat)                   (* v.append(p + off, len) *)
+| OPrintfSelf (v : nat) (a b : list Z).          (* v.printf("<a>%s<b>", p) *)
 
 (* ---- pure reference functions ---- *)
 Definition is_byte (b : Z) : bool := (0 <=? b) && (b <? 256).
@@ -188,7 +191,7 @@ Definition pre (s : sstate) (o : op) : bool :=
   | OAppendC v c => has s v && is_byte c
   | OReplaceC v a b => has s v && is_byte a && is_byte b
   | OReplaceS v n r => has s v && has s n && has s r && cbytes (valof s v) && cbytes (valof s n)
-  | OTrim v chars => has s v && cbytes chars && cbytes (valof s v)
+  | OTrim v chars => has s v && cbytes chars            (* chars is a C-string argument; the value is any byte string *)
   | OPrintf v l => has s v && cbytes l
   | OJoin v us sep => has s v && forallb (has s) us && is_byte sep
   | OSubstr v _ _ => has s v
@@ -196,11 +199,13 @@ Definition pre (s : sstate) (o : op) : bool :=
   | OTokenS v seps start => has s v && cbytes seps && cbytes (valof s v) && (start <=? length (valof s v))%nat
   | OSplit v seps _ => has s v && cbytes seps && cbytes (valof s v)
   | OCompare v u | OCompareIC v u | OEqualsIC v u | OCompareN v u _ | OCompareICN v u _ =>
-      has s v && has s u && cbytes (valof s v) && cbytes (valof s u)
+      has s v && has s u                                 (* comparisons are total: any byte strings *)
   | OFindC v c | OFindLastC v c => has s v && is_byte c
   | OFindCFrom v c _ => has s v && is_byte c && negb (c =? 0) && cbytes (valof s v)
   | OFindS v l | OFindOneOf v l | OFindLastS v l | OFindLastOf v l | OFindSFrom v l _ | OFindOneOfFrom v l _ =>
       has s v && cbytes l && cbytes (valof s v)
+  | OAppendOwn v off len => has s v && (off + len <=? length (valof s v))%nat
+  | OPrintfSelf v a b => has s v && cbytes a && cbytes b && cbytes (valof s v)
   end.
 
 Definition spec_exec (s : sstate) (o : op) : sstate * out :=
@@ -254,6 +259,8 @@ Definition spec_exec (s : sstate) (o : op) : sstate * out :=
   | OStartsWith v u => (s, RInt (b2z (is_prefix (valof s u) (valof s v))))
   | OEndsWith v u => (s, RInt (b2z (is_prefix (rev (valof s u)) (rev (valof s v)))))
   | OLen v => (s, RInt (Z.of_nat (length (valof s v))))
+  | OAppendOwn v off len => (setval s v (valof s v ++ slice (valof s v) off len), RNone)
+  | OPrintfSelf v a b => let l := a ++ valof s v ++ b in (setval s v l, RInt (Z.of_nat (length l)))
   end.
 
 Definition spec_step (s : sstate) (o : op) : option (sstate * out) :=
